@@ -65,7 +65,7 @@ func (q configQuery) Run() queryResult {
 	}
 
 	qr.value, err = streamConfig(resp.Body)
-	if err != nil {
+	if err = bodyError(ctx, err); err != nil {
 		prometheusQueryErrorsTotal.WithLabelValues(q.prom.name, APIPathConfig, errReason(err)).Inc()
 		qr.err = fmt.Errorf("failed to decode config data in %s response: %w", q.prom.safeURI, err)
 	}
